@@ -6,28 +6,29 @@ ID = "C04"
 MODEL_MODULES = ["Base", "Index", "Broadcast", "Select"]
 HANDLERS = ["h_c04.ml"]
 
-PROVED = ["C04_tile_shape", "C04_tile_element", "C04_repeat_flat", "C04_repeat_axis_on_domain", "C04_roll_axis", "C04_roll_flat",
-          "C04_pad", "C04_take_axis_on_domain", "C04_take_flat_on_domain", "C04_resize", "C04_concatenate_axis_on_domain",
+PROVED = ["C04_tile_shape", "C04_tile_element", "C04_repeat_flat", "C04_repeat_axis", "C04_roll_axis", "C04_roll_flat",
+          "C04_pad", "C04_take_axis", "C04_take_flat", "C04_compress_axis", "C04_resize", "C04_concatenate_axis",
           "C04_concatenate_flat", "C04_tril_triu", "C04_tril_triu_1d", "C04_tri_eye", "C04_diagflat",
-          "C04_sliding_window_axis", "C04_expand_axis", "C04_compress_axis_on_domain"]
+          "C04_sliding_window_axis", "C04_expand_axis", "C04_arange_count", "C04_linspace_element"]
 PARTIAL = ["C04_diagonal_matrix_partial"]
-REFUTED = ["C04_repeat_negative_axis_refuted", "C04_roll_repeated_axis_refuted", "C04_take_negative_axis_refuted",
-           "C04_take_negative_index_refuted", "C04_compress_negative_axis_refuted", "C04_concatenate_negative_axis_refuted",
-           "C04_diagonal_negative_offset_refuted", "C04_arange_negative_count_refuted", "C04_linspace_num1_endpoint_refuted"]
+REFUTED = ["C04_roll_repeated_axis_refuted"]
 CORRESPONDENCE_ONLY = ["roll with a tuple of axes", "repeat with per-element counts", "compress with axis=None", "expand with several axes", "stack", "hstack",
                        "vstack", "dstack", "column_stack", "split", "sliding_window with several axes or axis=None",
-                       "diagonal of arrays of dim > 2 or axes other than (0,1)", "where", "arange", "linspace",
+                       "diagonal of arrays of dim > 2 or axes other than (0,1)", "where", "arange / linspace element values in floating point",
                        "full/zeros/ones(_like)", "identity"]
 
 CLAIM = dict(
     text=("Kernel-checked for every dimension and every positive extent (Model Select.v = Spec, and the designated source index of every "
           "non-fill element is in bounds): tile (shape for all arguments; element i = a[i mod shape]); repeat with a scalar count (axis=None "
-          "and 0 <= axis < dim); roll with one axis (negative axes, any shift sign and magnitude) and axis=None; pad (documented widths "
-          "[before.., after..], constant fill); take (0 <= axis < dim or axis=None, entries in range); resize (nearest neighbour); concatenate "
-          "(0 <= axis < dim and axis=None); tril / triu (dim >= 2 and the 1-d form), tri, eye, diagflat; sliding_window and expand along one axis "
-          "(negative axes included); compress along 0 <= axis < dim; PARTIAL: diagonal for matrices with axes (0,1) and offset >= 0. REFUTED with Coq witnesses and listed "
-          "as known findings: negative axis in repeat / take / compress / concatenate (and stack), negative entries in take's index list, roll "
-          "with an axis listed twice, diagonal with a negative offset, arange of an empty range, linspace(num=1, endpoint). "
+          "and every valid axis -dim <= axis < dim); roll with one axis (negative axes, any shift sign and magnitude) and axis=None; pad "
+          "(documented widths [before.., after..], constant fill); take (every valid axis or axis=None, every valid entry incl. negative ones "
+          "counted from the end); compress along every valid axis; resize (nearest neighbour); concatenate (every valid axis and axis=None); "
+          "tril / triu (dim >= 2 and the 1-d form), tri, eye, diagflat; sliding_window and expand along one axis (negative axes included); the "
+          "element count of arange (empty ranges included) and the elements of linspace as exact rationals (num = 1 included); PARTIAL: "
+          "diagonal for matrices with axes (0,1) and ANY offset (negative, beyond the extent). These statements describe the tree WITH the "
+          "fix: commits wrap_axis (repeat / take / compress / concatenate), negative take entries, diagonal offset, arange empty range, "
+          "linspace element 0; the former findings are regression Examples. REFUTED with a Coq witness and listed as known finding: roll with an "
+          "axis listed twice (last shift wins, NumPy adds). "
           "CORRESPONDENCE-ONLY (modelled + specified + compared with the C++ on the grid, no element theorem): " + ", ".join(CORRESPONDENCE_ONLY) +
           ". Tied to the C++ by running view::X and array::X on run-time shaped operands (arguments as std::vector / std::array / run-time "
           "tuple / compile-time constants) and index::shape_X / index::X on vector / array / static_vector containers, two flavours "
@@ -209,7 +210,7 @@ def gen_cases(rng, tier):
             if rng.random() < 0.25:                                           # negative entries (NumPy: from the end)
                 neg = [x - nn if rng.random() < 0.5 else x for x in ind]
                 if min(neg) >= 0: neg[0] -= nn
-                add("take_negative_index", "take S:vec %s %s %s" % (A(s), L(neg), AX(a if a is None or a >= 0 else a + d)))
+                add("take", "take S:vec %s %s %s" % (A(s), L(neg), AX(a if a is None or a >= 0 else a + d)))
     for ind in CT_LISTS_TAKE:
         for s in take(rng, [t for t in shapes if len(t) >= 2 and t[1] > max(ind)], 3): add("take", "take S:ct %s %s I:1" % (A(s), L(ind)))
     for a in CT_INTS_AXIS:
@@ -352,7 +353,10 @@ def gen_cases(rng, tier):
                 add("diagonal", "diagonal S:vec %s I:%d I:%d I:%d" % (A(s), off, b1, b2), "c04b")
         if rng.random() < 0.2: add("diagonal", "diagonal_e %s I:%d I:%d I:%d" % (A(s), rng.randrange(s[a2]), a1, a2), "c04b")
         if rng.random() < 0.3:
-            add("diagonal_negative_offset", "diagonal S:vec %s I:%d I:%d I:%d" % (A(s), -rng.randint(1, s[a1] - 1) if s[a1] > 1 else -1, a1, a2), "c04b")
+            for off in (s[a2], s[a2] + 1, -s[a1], -s[a1] - 2):
+                add("diagonal_empty", "diagonal S:vec %s I:%d I:%d I:%d" % (A(s), off, a1, a2), "c04b")
+        if rng.random() < 0.3:
+            add("diagonal", "diagonal S:vec %s I:%d I:%d I:%d" % (A(s), -rng.randint(1, s[a1] - 1) if s[a1] > 1 else -1, a1, a2), "c04b")
     for off in CT_INTS_OFF:
         if off >= 0:
             for s in take(rng, [t for t in all_shapes(3, 4) if len(t) >= 2 and t[1] > off], 3): add("diagonal", "diagonal S:ct %s I:%d I:0 I:1" % (A(s), off), "c04b")
@@ -400,20 +404,19 @@ def gen_cases(rng, tier):
     for start in range(-3, 4):
         for stop in range(-3, 8):
             for (p, qq) in [(1, 1), (2, 1), (3, 1), (-1, 1), (-2, 1), (1, 2), (3, 2), (-1, 2), (3, 4), (5, 4)]:
-                if (stop - start) * p <= 0: continue                 # empty ranges: separate stream below
-                if rng.random() < (0.12 if q else 0.6): add("generators", "arange I:%d I:%d I:%d I:%d" % (start, stop, p, qq), "c04b")
+                if rng.random() < ((0.12 if (stop - start) * p > 0 else 0.03) if q else 0.6): add("generators", "arange I:%d I:%d I:%d I:%d" % (start, stop, p, qq), "c04b")
     for stop in range(1, 6): add("generators", "arange1 I:%d" % stop, "c04b")
     for _ in range(8): a_ = rng.randint(-3, 3); add("generators", "arange2 I:%d I:%d" % (a_, a_ + rng.randint(1, 5)), "c04b")
     for _ in range(6): a_ = rng.randint(-3, 3); add("generators", "arange_e I:%d I:%d I:%d" % (a_, a_ + rng.randint(1, 6), rng.randint(1, 3)), "c04b")
     add("generators", "arange I:2 I:2 I:1 I:1", "c04b")                   # empty, count 0
-    for (a_, b_, p) in [(3, 0, 1), (0, 3, -1), (2, 1, 2)]: add("arange_negative_count", "arange I:%d I:%d I:%d I:1" % (a_, b_, p), "c04b")
+    for (a_, b_, p) in [(3, 0, 1), (0, 3, -1), (2, 1, 2)]: add("generators", "arange I:%d I:%d I:%d I:1" % (a_, b_, p), "c04b")
     for start in range(-2, 3):
         for stop in range(-2, 6):
             for num in (1, 2, 3, 4, 5, 8):
                 for e in (0, 1):
                     if num == 1 and e == 1: continue
                     if rng.random() < (0.1 if q else 0.5): add("generators", "linspace I:%d I:%d I:%d I:%d" % (start, stop, num, e), "c04b")
-    for (a_, b_) in [(2, 5), (0, 0), (-1, 3)]: add("linspace_num1_endpoint", "linspace I:%d I:%d I:1 I:1" % (a_, b_), "c04b")
+    for (a_, b_) in [(2, 5), (0, 0), (-1, 3)]: add("generators", "linspace I:%d I:%d I:1 I:1" % (a_, b_), "c04b")
     return out
 
 
@@ -448,27 +451,6 @@ def _src_dim(t):
 def classify(line, impl, spec, model):
     t = line.split(" ")
     op = t[0]
-    if op in ("repeat", "repeat_e", "repeat_l", "repeat_ix"):
-        ax = t[-1]
-        if ax.startswith("I:") and int(ax[2:]) < 0: return "repeat_negative_axis"
-    if op in ("take", "take_e", "take_ix"):
-        ax = t[-1]
-        if ax.startswith("I:") and int(ax[2:]) < 0: return "take_negative_axis"
-        ind = _ints(t[3] if op != "take_e" else t[2]) if op != "take_ix" else _ints(t[3])
-        if any(x < 0 for x in ind): return "take_negative_index"
-    if op in ("compress", "compress_e"):
-        ax = t[-1]
-        if ax.startswith("I:") and int(ax[2:]) < 0: return "compress_negative_axis"
-    if op in ("concat", "concat_e", "concat_ix", "stack", "stack_e"):
-        ax = t[-1]
-        if ax.startswith("I:") and int(ax[2:]) < 0: return "concatenate_negative_axis"
-    if op in ("diagonal", "diagonal_e"):
-        off = int(t[-3][2:])
-        if off < 0: return "diagonal_negative_offset"
-    if op in ("arange", "arange_e"):
-        a_, b_, p = int(t[1][2:]), int(t[2][2:]), int(t[3][2:])
-        if p != 0 and (b_ - a_) * p < 0: return "arange_negative_count"
-    if op == "linspace" and t[3] == "I:1" and t[4] == "I:1": return "linspace_num1_endpoint"
     if op in ("roll_m", "roll_ms"):
         d = _src_dim(t); axes = [a + d if a < 0 else a for a in _ints(t[-1])]
         if len(set(axes)) < len(axes): return "roll_repeated_axis"
